@@ -76,6 +76,9 @@ var _ bufAPI = (*bytes.Buffer)(nil)
 
 var errC19User = errors.New("c19: scripted failure")
 
+// an error of the reader that WRAPS io.EOF is not io.EOF: bytes.Buffer.ReadFrom hands it back like any other error
+var errC19Wrapped = fmt.Errorf("c19: scripted failure at the end of the input: %w", io.EOF)
+
 type scriptReader struct {
 	s []bResp
 	i int
@@ -95,6 +98,9 @@ func (r *scriptReader) Read(p []byte) (int, error) {
 	case 1:
 		return n, io.EOF
 	case 2:
+		if (n+r.i)%2 == 1 {
+			return n, errC19Wrapped
+		}
 		return n, errC19User
 	}
 	return n, nil
@@ -132,7 +138,7 @@ func c19ErrKind(e error) string {
 		return "EOF"
 	case e == io.ErrShortWrite:
 		return "short"
-	case e == errC19User:
+	case e == errC19User || e == errC19Wrapped:
 		return "user"
 	}
 	m := e.Error()
@@ -216,6 +222,9 @@ func c19Apply(b bufAPI, o bOp) (out bOut) {
 	case "ReadBytes":
 		l, e := b.ReadBytes(o.B[0])
 		out = bOut{Bs: cp(l), Err: c19ErrKind(e)}
+		for i := range l { // the line is the caller's own copy: scribbling over it does not reach the buffer
+			l[i] ^= 0xff
+		}
 	case "ReadString":
 		l, e := b.ReadString(o.B[0])
 		out = bOut{Bs: []byte(l), Err: c19ErrKind(e)}
